@@ -237,7 +237,7 @@ func (ti *treeImporter) Import(p string) (*types.Package, error) {
 }
 
 // ConsistentAliases returns, for every import path that every importing file of the package aliases
-// identically, that alias. Dot and blank imports are ignored.
+// identically, that alias. A blank import names nothing and is ignored; a dot import makes the path inconsistent.
 func (t *Tree) ConsistentAliases(pkgPath string) map[string]string {
 	out := map[string]string{}
 	bad := map[string]bool{}
@@ -252,7 +252,10 @@ func (t *Tree) ConsistentAliases(pkgPath string) map[string]string {
 			if im.Name != nil {
 				alias = im.Name.Name
 			}
-			if alias == "." || alias == "_" {
+			if alias == "_" {
+				continue
+			}
+			if alias == "." {
 				bad[p] = true
 				continue
 			}
